@@ -139,6 +139,8 @@ func snapLine(it *models.Item) string {
 	return strings.Join(parts, "|")
 }
 
+func init() { subcommands["pipechild"] = func(a []string) { runPipeChild(a[0]) } }
+
 func runPipeChild(specPath string) {
 	raw, err := os.ReadFile(specPath)
 	must(err)
